@@ -5,7 +5,10 @@ from concurrent.futures import ThreadPoolExecutor
 
 RULE = ('scenario = tasks run with asyncio (concurrently), each task a sequence of awaited invocations (fd numbers are re-used); per '
         'invocation: callee kind {return 1 B … 1 MiB, raise Exception, raise SystemExit/KeyboardInterrupt, os._exit at once / after the '
-        'work, SIGKILL self, unpicklable result, killed after send, killed in the middle of a 1 MiB send}, sync or async callee, '
+        'work, SIGKILL self, unpicklable result, killed after send, killed in the middle of a 1 MiB send, callee that starts a process of its '
+        'own (nested @in_subprocess, nested calculate_in_subprocess, plain multiprocess.Process) — compared with the result of calling the '
+        'same callee directly —, callee whose process lingers 1.5 s (thorough: also 3 s) after it has reported (non-daemon thread), returning or raising}, '
+        'child processes counted right after every single await (/proc, nothing reaped by the observer), sync or async callee, '
         '@in_subprocess or calculate_in_subprocess, quantised durations covering every completion order of up to 3 (quick) / 4 '
         '(thorough) concurrent invocations; enumerated families + seeded random mixes; every scenario in its own process, '
         'watchdog 4.5 s per scenario (HANG), process group killed afterwards.  non-trivial = more than one invocation or a callee '
@@ -18,6 +21,10 @@ ASSUMPTIONS = [
     'fork inheritance of other invocations\' pipe ends is not modelled: with the current statement order Pipe→start→tx.close contains no await, so no other fork can happen while a write end is open in the parent',
     'process.join() blocks the event loop from the end of the child\'s send until the child has exited; the model states that this is the only synchronous wait, it does not bound its duration',
     'event loop = asyncio on selectors.EpollSelector (Linux): a closed fd silently leaves the kernel interest set but stays in the selector map',
+    'a child that lingers after its send (non-daemon thread, slow exit handler) keeps the parent inside the synchronous process.join() for that long: in scenarios '
+    'with a lingering callee the ticker check discounts the linger time (the stall of the event loop is measured and reported in the evidence as '
+    'max_event_loop_stall_s_in_linger_scenarios, see the previous assumption about join())',
+    'a callee that starts processes is compared for the value it returns; the grandchild processes themselves (children of the child) are outside the model',
 ]
 TRUSTED = [
     'kernel pipe semantics (a read end reports EOF iff no write end is open; data written to one pipe is read from that pipe only) and waitpid',
@@ -71,9 +78,44 @@ def killer():
         time.sleep(0.005)
 
 
+def grand(size):
+    """runs in a process started by the callee"""
+    return b'\xab' * size
+
+
+def grand_worker(tx, size):
+    tx.send(grand(size))
+    tx.close()
+
+
+def via_process(size):
+    """a plain worker process of the callee's own"""
+    rx, tx = multiprocess.Pipe(duplex=False)
+    p = multiprocess.Process(target=grand_worker, args=(tx, size))
+    p.start()
+    tx.close()
+    try:
+        return rx.recv()
+    finally:
+        p.join()
+        rx.close()
+
+
+def linger_thread(seconds):
+    time.sleep(seconds)
+
+
 def finish(spec, idx, tag):
     kind = spec['callee'][0]
     if kind == 'ret':
+        return (idx, os.getpid(), tag, b'\xab' * spec['size'])
+    if kind == 'linger':
+        # the process of the callee stays alive after the function has returned / raised (Python joins non-daemon threads before a
+        # process ends); run directly (no process of its own) nothing lingers
+        if os.getpid() != PARENT:
+            threading.Thread(target=linger_thread, args=(spec['linger'],)).start()
+        if spec['callee'][1] == 'exc':
+            raise EXC[spec['exc']](idx, os.getpid(), 'p' * spec['size'])
         return (idx, os.getpid(), tag, b'\xab' * spec['size'])
     if kind == 'exc':
         raise EXC[spec['exc']](idx, os.getpid(), 'p' * spec['size'])
@@ -99,6 +141,24 @@ def finish(spec, idx, tag):
 
 def make(spec):
     early = spec['callee'] == ['death', 'beforeRun']
+    if spec['callee'][0] == 'spawn':
+        how = spec['callee'][1]
+
+        async def nested(size):
+            if how == 'deco':
+                return await in_subprocess(grand)(size)
+            return await calculate_in_subprocess(grand, size)
+        if spec['async']:
+            async def callee(idx, *, tag):
+                await asyncio.sleep(spec['dur'] * Q)
+                payload = via_process(spec['size']) if how == 'process' else await nested(spec['size'])
+                return (idx, os.getpid(), tag, payload)
+        else:
+            def callee(idx, *, tag):
+                time.sleep(spec['dur'] * Q)
+                payload = via_process(spec['size']) if how == 'process' else asyncio.run(nested(spec['size']))
+                return (idx, os.getpid(), tag, payload)
+        return callee
     if spec['async']:
         async def callee(idx, *, tag):
             if early:
@@ -160,6 +220,24 @@ def classify(spec, idx, kind, val):
     return ['other', type(e).__name__], None
 
 
+def direct_calls():
+    """the callees that start processes of their own, run DIRECTLY in this process with the same arguments (before the event loop of the
+    scenario exists): what they return here is what the property says the awaited invocation yields"""
+    out = {}
+    for i, spec in enumerate(SC['invs']):
+        if spec['callee'][0] != 'spawn':
+            continue
+        f = make(spec)
+        try:
+            r = asyncio.run(f(i, tag='t%d' % i)) if spec['async'] else f(i, tag='t%d' % i)
+            kind, val = 'ret', r
+        except BaseException as e:
+            kind, val = 'exc', e
+        o, pid = classify(spec, i, kind, val)
+        out[str(i)] = {'out': o, 'pid_is_parent': pid == PARENT}
+    return out
+
+
 async def main():
     loop = asyncio.get_running_loop()
     gc.collect()
@@ -168,11 +246,23 @@ async def main():
     res = [None] * n
     ticks = [0]
     order = []
+    stall = [0.0]
+
+    last = [time.monotonic()]
 
     async def ticker():
         while True:
             await asyncio.sleep(TICK)
             ticks[0] += 1
+            now = time.monotonic()
+            stall[0] = max(stall[0], now - last[0])
+            last[0] = now
+
+    def excess_children(i):
+        """child processes of this process (running or zombie) beyond the ones the other invocations that are pending right now can account
+        for (one each, at most) — counted right after invocation i handed over its result, before anything else runs"""
+        others = sum(1 for j, r in enumerate(res) if j != i and r is not None and r['state'] == 'pending')
+        return max(0, len(children()) - base['children'] - others)
 
     async def chain(ids):
         for i in ids:
@@ -190,8 +280,9 @@ async def main():
                 raise
             except BaseException as e:
                 kind, val = 'exc', e
+            left = excess_children(i)
             out, pid = classify(spec, i, kind, val)
-            res[i] = {'state': 'done', 'out': out, 'pid': pid, 'wall': time.monotonic() - t0, 'ticks': ticks[0] - k0, 'val': val}
+            res[i] = {'state': 'done', 'out': out, 'pid': pid, 'wall': time.monotonic() - t0, 'ticks': ticks[0] - k0, 'val': val, 'left': left}
             order.append(i)
 
     async def blocker(nz):
@@ -208,19 +299,20 @@ async def main():
         tasks.append(asyncio.ensure_future(blocker(SC['blocker'])))
     done, pending = await asyncio.wait(tasks, timeout=WATCHDOG)
     errors = [repr(t.exception()) for t in done if t.exception() is not None]
+    stall[0] = max(stall[0], time.monotonic() - last[0])
     tk.cancel()
     conns_at_completion = open_conns() - base['conns']
     sel_at_completion = len(loop._selector.get_map()) - base['sel']
     kids_at_completion = len(children()) - base['children']
     hang = bool(pending)
-    outs, pids, walls, tks = [], [], [], []
+    outs, pids, walls, tks, lefts = [], [], [], [], []
     for r in res:
         if r is None:
-            outs.append(['notrun']); pids.append(None); walls.append(0); tks.append(0)
+            outs.append(['notrun']); pids.append(None); walls.append(0); tks.append(0); lefts.append(0)
         elif r['state'] == 'pending':
-            outs.append(['hang']); pids.append(None); walls.append(0); tks.append(0)
+            outs.append(['hang']); pids.append(None); walls.append(0); tks.append(0); lefts.append(0)
         else:
-            outs.append(r['out']); pids.append(r['pid']); walls.append(round(r['wall'], 3)); tks.append(r['ticks'])
+            outs.append(r['out']); pids.append(r['pid']); walls.append(round(r['wall'], 3)); tks.append(r['ticks']); lefts.append(r['left'])
     fd_after = None
     if not hang:
         for r in res:
@@ -231,27 +323,31 @@ async def main():
         fd_after = nfds() - base['fds']
     rep = {'out': outs, 'pid_differs': [None if p is None else (p != PARENT) for p in pids], 'wall': walls, 'ticks': tks,
            'order': order, 'hang': hang, 'fd_delta': fd_after, 'children_left': kids_at_completion,
-           'open_conns': conns_at_completion, 'selector_delta': sel_at_completion, 'errors': errors}
+           'open_conns': conns_at_completion, 'selector_delta': sel_at_completion, 'errors': errors,
+           'left_after_await': lefts, 'direct': DIRECT, 'stall': round(stall[0], 3)}
     sys.stdout.write(json.dumps(rep) + '\n')
     sys.stdout.flush()
     os._exit(0)
 
 
+DIRECT = direct_calls()
 asyncio.run(main())
 '''
 
 
 # ------------------------------------------------------------------------------------------------ scenarios
 
-def inv(callee, dur=1, size=16, big=None, is_async=False, form='deco', exc='ValueError', base='sysexit'):
+def inv(callee, dur=1, size=16, big=None, is_async=False, form='deco', exc='ValueError', base='sysexit', linger=1.5):
     kind = callee[0]
     if kind == 'midsend':
         size = 1 << 20
     if big is None:
         big = size > 60000
     d = {'callee': list(callee), 'dur': dur, 'size': size, 'big': bool(big), 'async': bool(is_async), 'form': form}
-    if kind == 'exc':
+    if kind == 'exc' or callee == ['linger', 'exc']:
         d['exc'] = exc
+    if kind == 'linger':
+        d['linger'] = linger          # seconds the child stays alive after `_inner` has sent
     if kind == 'base':
         d['base'] = base
     return d
@@ -278,6 +374,8 @@ def scenario(tasks, origin=''):
 
 
 DEATHS = [['death', 'beforeRun'], ['death', 'osExit'], ['death', 'signal'], ['base'], ['unpicklable']]
+SPAWNS = [['spawn', 'deco'], ['spawn', 'func'], ['spawn', 'process']]
+LINGER_Q, LINGER_T = 1.5, 3.0      # seconds a lingering child outlives its send (quick / additionally in thorough)
 EXCS = ['ValueError', 'KeyError', 'CalleeError', 'ZeroDivisionError']
 SIZES = [1, 4096, 60000, 65537, 1 << 20]
 
@@ -289,9 +387,11 @@ def rand_inv(rng, allow_death=True, maxdur=4):
         return inv(['ret'], size=rng.choice(SIZES + [16, 16]), **common)
     if r < 0.6 or not allow_death:
         return inv(['exc'], exc=rng.choice(EXCS), size=rng.choice([1, 16, 70000]), **common)
-    if r < 0.9:
+    if r < 0.86:
         c = rng.choice(DEATHS)
         return inv(c, base=rng.choice(['sysexit', 'kbd']), **common)
+    if r < 0.93:
+        return inv(rng.choice(SPAWNS), size=rng.choice([16, 4096, 70000]), **common)
     return inv(['aftersend'], size=rng.choice([16, 4096]), **common)
 
 
@@ -309,6 +409,28 @@ def cases(rng, tier):
     out.append(scenario([[inv(['base'], base='kbd')]], 'single-death'))
     out.append(scenario([[inv(['aftersend'])]], 'single-aftersend'))
     out.append(scenario([[inv(['midsend'], dur=0)]], 'single-midsend'))
+    # (a2) a callee that starts a process of its own: nested @in_subprocess / calculate_in_subprocess (async callee awaits it, sync callee
+    #      runs it with asyncio.run) and a plain Process; the runner also calls the callee directly and compares
+    for k, c in enumerate(SPAWNS):
+        for is_async in (True, False):
+            out.append(scenario([[inv(c, dur=1, size=(16, 70000)[(k + is_async) % 2], is_async=is_async, form=('deco', 'func')[(k + is_async) % 2])]],
+                                'single-spawn'))
+    out.append(scenario([[inv(['spawn', 'deco'], dur=1, is_async=True), inv(['ret'], dur=1)], [inv(['spawn', 'process'], dur=2), inv(['spawn', 'func'], dur=1, is_async=True)]],
+                        'spawn+sequence+concurrent'))
+    # (a3) a child that lingers after it has reported its result (non-daemon thread): when the await returns the child must be gone and reaped
+    out.append(scenario([[inv(['linger', 'ret'], dur=1, linger=LINGER_Q)]], 'single-linger'))
+    out.append(scenario([[inv(['linger', 'exc'], dur=0, linger=LINGER_Q, is_async=True, form='func'), inv(['ret'], dur=1)]], 'linger+sequence'))
+    out.append(scenario([[inv(['linger', 'ret'], dur=1, linger=LINGER_Q, is_async=True)], [inv(['ret'], dur=2)], [inv(['linger', 'ret'], dur=1, linger=LINGER_Q, form='func')]],
+                        'linger+concurrent'))
+    if thorough:
+        for k, (how, is_async, form) in enumerate(itertools.product(['ret', 'exc'], [False, True], ['deco', 'func'])):
+            out.append(scenario([[inv(['linger', how], dur=k % 2, linger=(LINGER_T, LINGER_Q)[k % 2], is_async=is_async, form=form, size=(16, 70000)[k % 2])]],
+                                'single-linger'))
+        out.append(scenario([[inv(['linger', 'ret'], dur=0, linger=LINGER_T), inv(['linger', 'exc'], dur=0, linger=LINGER_Q / 3), inv(['ret'], dur=1)]], 'linger+sequence'))
+        out.append(scenario([[inv(['linger', 'ret'], dur=1, linger=LINGER_T)], [inv(['death', 'osExit'], dur=1), inv(['ret'], dur=1)]], 'linger+concurrent'))
+        for c in SPAWNS:
+            out.append(scenario([[inv(c, dur=1, is_async=True)], [inv(c, dur=2)], [inv(['death', 'signal'], dur=1), inv(c, dur=1, is_async=(c[1] != 'process'))]],
+                                'spawn+concurrent'))
     # (b) concurrent, every completion order of 2 and 3 (thorough: 4) invocations, mixed kinds
     kinds3 = [['ret'], ['exc'], ['death', 'osExit']]
     for durs in itertools.permutations([1, 2, 3]):
@@ -363,6 +485,11 @@ def search(rng, tier, near):
     out.append(scenario([[inv(['exc'], dur=1)]], 'search'))
     out.append(scenario([[inv(['ret'], dur=1), inv(['ret'], dur=1)]], 'search'))
     out.append(scenario([[inv(['ret'], dur=2, size=1 << 20)]], 'search'))
+    for c in SPAWNS:
+        out.append(scenario([[inv(c, dur=1, is_async=True)]], 'search'))
+        out.append(scenario([[inv(c, dur=1)]], 'search'))
+    out.append(scenario([[inv(['linger', 'ret'], dur=0, linger=LINGER_T)]], 'search'))
+    out.append(scenario([[inv(['linger', 'exc'], dur=0, linger=LINGER_Q, is_async=True)]], 'search'))
     for _ in range(12):
         out.append(scenario([[rand_inv(rng) for _ in range(rng.randint(1, 3))] for _ in range(rng.randint(1, 3))], 'search'))
     return out
@@ -405,10 +532,13 @@ def run_one(runner, case, env):
     r = json.loads(line[0])
     outs = [['hang'] if o[0] in ('hang', 'notrun') else o for o in r['out']]
     tick_bad = []
+    # a lingering child keeps its parent inside the synchronous join() for as long as it lingers (see ASSUMPTIONS): not counted as pending time
+    frozen_by_join = sum(s.get('linger', 0) for s in x['invs'])
     if not x.get('blocker'):
         for i, (w, k) in enumerate(zip(r['wall'], r['ticks'])):
+            w = w - frozen_by_join
             if r['out'][i][0] not in ('hang', 'notrun') and w >= 0.15 and k < max(2, int(w / 0.01 * 0.1)):
-                tick_bad.append([i, w, k])
+                tick_bad.append([i, r['wall'][i], k])
     released = None
     if not r['hang']:
         released = (r['fd_delta'] == 0 and r['children_left'] == 0 and r['open_conns'] == 0 and r['selector_delta'] == 0)
@@ -417,6 +547,9 @@ def run_one(runner, case, env):
             'resources': {'fd_delta': r['fd_delta'], 'children_left': r['children_left'], 'open_conns': r['open_conns'],
                           'selector_delta': r['selector_delta']},
             'pid_differs': r['pid_differs'], 'ticker_ok': not tick_bad, 'ticker_bad': tick_bad, 'order': r['order'],
+            'left_after_await': r.get('left_after_await', [0] * n),
+            'direct': {k: (v['out'][:2] if v['out'][0] != 'other' else ['other', v['out'][1]]) for k, v in (r.get('direct') or {}).items()},
+            'stall_s': r.get('stall', 0) if frozen_by_join else None,
             'errors': r['errors'], 'wall_s': round(time.time() - t0, 2)}
 
 
@@ -459,12 +592,21 @@ def judge(case, impl, model):
         if o == ['hang'] and s['terminates']:
             pfail = (f"HANG: invocation {i} (callee {kind}) was still pending {WATCHDOG} s after the start"
                      + (' — the whole event loop was frozen' if impl.get('frozen') else ''))
+        elif kind[0] == 'spawn' and str(i) in impl.get('direct', {}) and impl['direct'][str(i)][:1] == ['ret'] \
+                and (o != impl['direct'][str(i)] or o not in s['allowed'][i]):
+            cls = (impl.get('classes') or [None] * n)[i]
+            pfail = (f"invocation {i} (callee {kind}, starts a process of its own): called directly with the same arguments it returns "
+                     f"{impl['direct'][str(i)]}, awaited through in_subprocess the caller got {o + ([cls] if cls else [])}")
         elif o not in s['allowed'][i]:
             pfail = f"invocation {i} (callee {kind}) handed its caller {o}, the property allows {s['allowed'][i]}"
         elif impl['pid_differs'][i] is False:
             pfail = f"invocation {i} ran in the parent process"
     if not pfail and impl['ticker_ok'] is False:
         pfail = f"the event loop did not run other tasks while an invocation was pending: [invocation, wall s, ticks] {impl['ticker_bad']}"
+    if not pfail and s['released'] and any(impl.get('left_after_await') or []):
+        i = next(i for i, k in enumerate(impl['left_after_await']) if k)
+        pfail = (f"invocation {i} (callee {x['invs'][i]['callee']}" + (f", child lingers {x['invs'][i]['linger']} s after its send" if 'linger' in x['invs'][i] else '')
+                 + f") handed over its result while {impl['left_after_await'][i]} child process(es) it is responsible for were still there (running or un-reaped)")
     if not pfail and impl['released'] is False and s['released']:
         pfail = f"resources left behind after all invocations returned: {impl['resources']}"
     kinds = sorted({(k['callee'][0] if k['callee'][0] != 'death' else k['callee'][1]) for k in x['invs']})
@@ -476,10 +618,15 @@ def judge(case, impl, model):
 
 
 def extra_coverage(results):
-    orders, walls = set(), []
+    orders, walls, stalls, direct = set(), [], [], 0
     for (c, i, m, j) in results:
         if i.get('order') is not None and len(i['order']) <= 4:
             orders.add(tuple(i['order']))
         walls.append(i.get('wall_s', 0))
+        if i.get('stall_s') is not None:
+            stalls.append(i['stall_s'])
+        direct += len(i.get('direct') or {})
     return {'distinct_completion_orders_up_to_4': len(orders), 'scenario_wall_max_s': max(walls or [0]),
+            'invocations_compared_with_a_direct_call': direct, 'linger_scenarios': len(stalls),
+            'max_event_loop_stall_s_in_linger_scenarios': max(stalls or [0]),
             'hang_watchdog_s': WATCHDOG, 'level_note': 'proof about the protocol model + correspondence on observable facts (partial: see assumptions)'}
